@@ -21,8 +21,10 @@ def contract(cls):
 class Loop:
     """Loop specification: inv(cx) -> [(name, formula)], optional body_post(cx), decreases(cx), index, modifies."""
 
-    def __init__(self, inv, body_post=None, decreases=None, index=None, modifies=(), seq_len=None, hints=None, break_post=None):
+    def __init__(self, inv, body_post=None, decreases=None, index=None, modifies=(), seq_len=None, hints=None, break_post=None,
+                 ghost_modifies=()):
         self.inv = inv
+        self.ghost_modifies = tuple(ghost_modifies)      # symbolic ghost state the body updates: havocked at the loop head
         if break_post is not None:
             self.break_post = break_post
         if hints is not None:
